@@ -1,3 +1,2 @@
 package main
 
-func doRunSource(rq *Req) *Resp { return &Resp{ID: rq.ID, End: "harness-error:not implemented"} }
